@@ -23,12 +23,12 @@ CLAIMED = {
 
 CLAIMED["C04"] = dict(level="exploration", ref="DESIGN.md 5/C04",
     text="Seeded operator histories: a consistent individual is driven through scripts of 1..N steps over all shipped ruins, recreates, local operators and search operators under the simulated scheduler, clock (inner deadlines), hash order and optional counting quota; after every step the child is checked by R-inv (job bookkeeping, registry vs tours, tour well-formedness, hard constraints via the document oracles) and the parent digest must be unchanged.",
-    note="Operators built through public constructors with default-heuristic parameter ranges; ruin outputs are refreshed the way the next recreate does (InsertionContext::restore) before time rules are judged; one case in five runs on a problem with user relations (derived from a first solve, pinning rules judged after every step; a case whose relation tours as built by the solver already break a hard rule is outside the premise and discarded). Operator constructor parameters are seeded from the ranges the JSON config admits; script steps include one search/diversify step of the shipped dynamic and static hyper-heuristics (their operator sets as shipped); one case in five without a random quota is an interruption enumeration: the identical deterministic script is re-executed with the quota turning true at the first, last and one inner poll of every polling step (<= 8 re-executions), each judged the same way.",
+    note="Operators built through public constructors with default-heuristic parameter ranges; ruin outputs are refreshed the way the next recreate does (InsertionContext::restore) before time rules are judged; one case in five runs on a problem with user relations (derived from a first solve, pinning rules judged after every step; a case whose relation tours as built by the solver already break a hard rule is outside the premise and discarded). Operator constructor parameters are seeded from the ranges the JSON config admits; script steps include one search/diversify step of the shipped dynamic and static hyper-heuristics (their operator sets as shipped); one case in five without a random quota is an interruption enumeration: the identical deterministic script is re-executed with the quota turning true at the first, last and one inner poll of every polling step (<= 8 re-executions), each judged the same way. Half of the interruption enumerations observe the quota concurrently (virtual timeline per worker, DESIGN 9.12).",
     tech=TECH + "operator-history search with per-step invariant checking against reference models; parent-unchanged digest")
 
 CLAIMED["C07"] = dict(level="fault_enumeration", ref="DESIGN.md 5/C07",
     text="Crash-point enumeration: for each sampled base (problem, builder configuration, schedule, clock, hash seed) the fault-free execution is run first; the identical deterministic execution is then repeated with the injected quota flipping at poll k (quick: all k <= 32, last 8, 24 random; thorough: every k in [0, N]) or with the simulated clock jumping past maxTime at read j. Every interrupted run must return Ok with a document that passes R-part/R-feas/R-stat, report <= maxGenerations, run <= maxGenerations+1 refinement rounds and apply no insertion after a flip during construction.",
-    note="Exhaustive over the crash-point coordinate only per enumerated base; bases are sampled. Crash = cooperative cancellation (no durable state exists). Leaf tasks atomic. One case in four is a liveness case: the LKH search operator (polls no quota) on generated Euclidean lattice instances read through vrp-scientific; a case which does not return within the per-case wall-clock budget (120 s quick / 900 s thorough, cases cost milliseconds) is the violation no-return - the only use of real time, and every check runs under this watchdog. Three bases in eight also pass a termination criterion of the caller through the public with_termination (at the pinned commit the builder ignores it: the configured limits stay in force, which is what the oracle demands).",
+    note="Exhaustive over the crash-point coordinate only per enumerated base; bases are sampled. Crash = cooperative cancellation (no durable state exists). One case in four is a liveness case: the LKH search operator (polls no quota) on generated Euclidean lattice instances read through vrp-scientific; a case which does not return within the per-case CPU-time budget (120 s quick / 900 s thorough, cases cost milliseconds to seconds) is the violation no-return - the only use of real time, and every check runs under this watchdog. Three bases in eight also pass a termination criterion of the caller through the public with_termination (at the pinned commit the builder ignores it: the configured limits stay in force, which is what the oracle demands). Since round 4: in 40 % of the counting-quota bases the quota is observed concurrently by the leaves of a fork-join (virtual timeline per worker, DESIGN 9.12: several leaves see the flip in the middle of their work; the no-insertion-after-flip rule is not applied there); the watchdog budget is CPU time of the worker process (wall time 20x as backstop); pool layouts (p, 0) and (0, t); one case in five is a full solve through the JSON solver config ended by its generation / time / variation limits (returns normally, reported generations <= maxGenerations, document passes the oracles).",
     tech=TECH + "crash-point enumeration over quota polls / clock reads of a deterministic re-execution; document oracles + in-run hyper-heuristic monitor")
 
 CLAIMED["C05"] = dict(level="exploration", ref="DESIGN.md 5/C05",
@@ -38,7 +38,7 @@ CLAIMED["C05"] = dict(level="exploration", ref="DESIGN.md 5/C05",
 
 CLAIMED["C15"] = dict(level="exploration", ref="DESIGN.md 5/C15",
     text="Plan differential: for seeded ruined-and-refreshed states the real PositionInsertionEvaluator::evaluate_all is executed under many split trees, leaf orders and worker counts of the plan-driven executor (only trees rayon can produce, incl. the flat_map rule that no leaf spans two tours) and compared with the sequential single-leaf scan and with the minimum over independent per-(tour, job) evaluations; one case in four is a full solve under a generated pool layout judged by the document oracles; one case in twelve runs another reducer of the seam, Footprint::on_change (fold_reduce over a generation's batch of real individuals), under the split plan and compares every cell with the harness' own sequential saturating count.",
-    note="Equality is owed on: deterministic selection (BestResultSelector, exhaustive legs), single-task and one-pickup-one-delivery jobs (every other multi-task shape gets its task permutations sampled at random on each evaluation), metric integer matrices, scale 1, goals made of minimize-unassigned / minimize-tours / one routing-cost objective in any order; cost vectors are compared up to floating point noise (1e-6 + 1e-9 relative).",
+    note="Equality is owed on: deterministic selection (BestResultSelector, exhaustive legs), single-task and one-pickup-one-delivery jobs (every other multi-task shape gets its task permutations sampled at random on each evaluation), metric integer matrices, scale 1, goals made of minimize-unassigned / minimize-tours / one routing-cost objective in any order; cost vectors are compared up to floating point noise (1e-6 + 1e-9 relative). Pool layouts include (p, 0) (rayon chooses the threads) and (0, t) (no pool); a full solve which panics or returns an error is a violation of clause 2.",
     tech=TECH + "differential execution of the same fork-join under seeded split plans vs sequential references")
 
 NOT_APPLICABLE = {
@@ -54,12 +54,12 @@ NOT_APPLICABLE = {
 
 CLAIMED["C08"] = dict(level="exploration", ref="DESIGN.md 5/C08",
     text="Seeded operation histories (add, add_all batches, on_generation, select, ranked reads; 5..120 ops quick, ..600 thorough) on the three real populations (Greedy, Elitism, Rosomaxa) with generated sizes, selection sizes, rebalance memory and exploration ratio, under the simulated scheduler (Rosomaxa trains through the fork-join seam), worker RNG streams and hash order; after every operation the population is compared with a reference model that remembers every offered individual under an independent comparator: first ranked never worse than the best ever offered (singly or inside a batch), ranked() sorted, size bounds, select() a sub-multiset of what was offered and non-empty iff the population is, phases only forward.",
-    note="One case in ten is a crash-restart pair for the consequence clause: a (possibly clock-interrupted) simulated solve emits a document, it is read back through read_init_solution and seeds a second solve under an independent schedule/clock/hash/config seed; the best individual of the final population (judged before the solver's post-processing, rule population-lost-seeded) and the returned one (after it, rule restart-worse) must not be worse than the seeded one under Goal::total_order; the same deterministic execution is repeated through Solver::solve with 1..3 individuals requested from the strategy and must hand out the identical document; what the strategy hands out (1..9 individuals requested) never exceeds the size bound of the configured greedy/elitism population. Histories use the harness' total preorder over generated fitness vectors, so C09 is not assumed there; the restart verdict uses the repository's own goal on both sides.",
+    note="One case in ten is a crash-restart pair for the consequence clause: a (possibly clock-interrupted) simulated solve emits a document, it is read back through read_init_solution and seeds a second solve under an independent schedule/clock/hash/config seed; the best individual of the final population (judged before the solver's post-processing, rule population-lost-seeded) and the returned one (after it, rule restart-worse) must not be worse than the seeded one under Goal::total_order; the same deterministic execution is repeated through Solver::solve with 1..3 individuals requested from the strategy and must hand out the identical document; what the strategy hands out (1..9 individuals requested) never exceeds the size bound of the configured greedy/elitism population. Histories use the harness' total preorder over generated fitness vectors, so C09 is not assumed there; the restart verdict uses the repository's own goal on both sides. In 30 % of the restarts whose configuration admits two initial solutions the second solve gets two seeds, a poor one (every job unassigned) first.",
     tech=TECH + "population operation-history search against a best-ever-offered reference model under seeded schedules, RNG streams and hash order")
 
 CLAIMED["C12"] = dict(level="fault_enumeration", ref="DESIGN.md 5/C12",
     text="Positives: full solves under the simulator (seeded fork-join plans, clock policies and stalls, hash order, generated configs); every emitted solution which the independent reference oracle finds valid must be accepted by the bundled checker, also after any/sequence/strict relations derived from the solution itself are added to the problem. Negatives: for each such accepted solution single-breach mutants of 13 classes (several variants each) are enumerated at every applicable site (quick: a seeded subset of <= 60 sites per solution; thorough: all) and each mutant, once the reference oracle confirms it is invalid (relations and demanded breaks: by construction), must be rejected; a checker panic is neither.",
-    note="Exhaustive over sites x classes per stored solution in the thorough tier; solutions are sampled. Multi-task jobs get the unique place tags the checker documents it needs. One case in five is solved on a problem with user relations (derived from a first solve): the solver's answer must satisfy the checker's relation rules as well. Required breaks and clustering are not generated here (the reference oracle does not replay the times of such tours, so it could not decide whether a rejection is wrong), nor time-dependent matrices (the checker states that it does not implement them) and recharge stations; cost is not mutated (the checker documents that cost is ignored); vehicle ids which contain each other are generated.",
+    note="Exhaustive over sites x classes per stored solution in the thorough tier; solutions are sampled. Multi-task jobs get the unique place tags the checker documents it needs. One case in five is solved on a problem with user relations (derived from a first solve): the solver's answer must satisfy the checker's relation rules as well. Required breaks and clustering are not generated here (the reference oracle does not replay the times of such tours, so it could not decide whether a rejection is wrong), nor time-dependent matrices (the checker states that it does not implement them) and recharge stations; cost is not mutated (the checker documents that cost is ignored); vehicle ids which contain each other are generated. Every other document is checked through the entry point of vrp-cli check (vrp_cli::extensions::check); matrices of multi-profile problems are supplied in reverse order in 30 % of the cases; breach site of class load-above-capacity on shared reload resources: capacity one unit below the total draw of all tours (confirmed by the oracle's shared-resource rule).",
     tech=TECH + "single-breach fault enumeration over solution documents emitted by simulated solves, bundled checker vs independent reference oracle")
 
 CLAIMED["C14"] = dict(level="exploration", ref="DESIGN.md 5/C14",
@@ -69,7 +69,7 @@ CLAIMED["C14"] = dict(level="exploration", ref="DESIGN.md 5/C14",
 
 CLAIMED["C18"] = dict(level="exploration", ref="DESIGN.md 5/C18",
     text="Seeded histories: (a) SlotMachine reward streams (zeros, denormals, far out-of-range magnitudes, constant and alternating runs) compared after every update with a closed-form normal-gamma reference (alpha, beta > 0 and finite, variance >= 0, mean inside the hull of prior and rewards, sample finite with a recording sampler and the real sampler never panicking); (b) the real DynamicSelective hyper-heuristic on a scalar problem under frozen/stalled/slow simulated clocks: rewards finite and in the documented range, slot index valid; (c) terminations MaxTime/MaxGeneration/MinVariation(sample|period)/Composite: estimate in [0,1] at every read incl. after clock jumps past the limit, and MinVariation fires exactly when an independently computed coefficient of variation over exactly the documented window is below the threshold; (d) the remedian estimator (duration medians of the selector) over observation histories against an independently written median-of-medians reference.",
-    note="Fitness histories for the CV oracle are non-negative, incl. histories of tiny magnitude (1e-17) with large relative spread and a generation limit of zero; a step whose reference CV is within 1e-12 of the threshold or non-finite is skipped and counted.",
+    note="Fitness histories for the CV oracle are non-negative, incl. histories of tiny magnitude (1e-17) with large relative spread and a generation limit of zero; a step whose reference CV is within 1e-12 of the threshold or non-finite is skipped and counted. The composite criterion is built over every subset of members (the empty one included) and must fire exactly when a member's twin does; Random::weighted over weight vectors with zeros must never pick a zero-weight entry.",
     tech=TECH + "reward/termination history search against closed-form reference models under simulated clock policies")
 
 CLAIMED["C19"] = dict(level="exploration", ref="DESIGN.md 5/C19",
